@@ -58,6 +58,9 @@ def flat_state(model):
     for n, m in model.named_modules():
         if isinstance(m, QModuleMixin):
             s[f"{n}::attrs"] = (m.weight_qtype, m.activation_qtype, m.weight_group_size, m.frozen, m.training)
+    # "untouched" also means: the same Parameter objects, still trainable (or not) as before
+    for n, p in model.named_parameters():
+        s[f"{n}::param"] = (id(p), p.requires_grad)
     return s
 
 
@@ -218,7 +221,9 @@ def _exec_history(case):
                 out.fail(f"{'freeze_again' if again else 'freeze'}/{wk}/output-changed", f"outputs immediately before and after {'a second ' if again else ''}freeze() differ ({case['wq']}, act {case['aq']}, {case['dtype']}, {fam})")
             after_state = flat_state(model)
             if again:
-                d = diff_state(before_state, after_state)
+                # (the Parameter object wrapping a frozen weight may be a new one: identity is asserted for everything else)
+                qn = {n for n, m in model.named_modules() if isinstance(m, QModuleMixin) and m.weight_qtype is not None}
+                d = diff_state(before_state, after_state, ignore=lambda k: k.endswith("::param") and any(k == q + ".weight::param" for q in qn))
                 if d:
                     out.fail(f"freeze_again/{wk}/not-idempotent", f"freezing again changed {d}")
             else:
@@ -226,7 +231,6 @@ def _exec_history(case):
                 qnames = {n for n, m in model.named_modules() if isinstance(m, QModuleMixin) and m.weight_qtype is not None}
 
                 def is_weight(k):
-                    mod = k.split("::")[0] if "::" in k else k.rsplit(".", 1)[0] if "." in k else ""
                     return any(k.startswith(q + ".weight") or k == q + "::attrs" for q in qnames)
 
                 common_b = {k: v for k, v in before_state.items() if not is_weight(k)}
